@@ -588,6 +588,7 @@ class Builder:
                 fl = list(u.flags) + (h.opts.get('flags', '').replace(',', ' ').split() if h.opts.get('flags') else [])
                 j = Job(u.name, '%s[%s]' % (h.name, mode), h.kind, mode, p, fl, int(h.opts.get('timeout', u.timeout)))
                 j.target = h.name
+                j.split_first = 'split' in h.opts
                 j.expect_fail.add('%s/reach' % h.name)
                 jobs.append(j)
         return jobs
